@@ -19,6 +19,7 @@ import random
 import numpy as np
 
 from .. import core, encode, inputs, pool
+from . import rel_common as rc
 
 TRACE = ("Trace_Threshold.tla", "Trace_Threshold.cfg")
 NAN = encode.NAN
@@ -57,9 +58,22 @@ def _strict_units(x, den):
     return [[encode.e_int(float(v) * den) for v in row] for row in np.asarray(x)]
 
 
-def _one_call(rec, f, W, den, args, copy, enc_out):
-    """one real call on a fresh array; appends the observations to rec; returns the result"""
-    arg = np.array(W, dtype=float) / den
+def arg_dtype(fn, wcm, dtype, W=None):
+    """what a utility may be handed for a drawn dtype (rel_common.admissible).  Thresholding and
+    binarize return a support / input entries (structural -> float32 allowed); normalize, invert
+    and weight_conversion to them return real values (no float32).  None copies to float before
+    doing arithmetic on the argument (threshold_proportional's symmetry test subtracts W.T) -> no
+    unsigned type.  bool only for binarize of a 0/1 matrix (a boolean mask IS a binary network)."""
+    what = wcm or fn
+    binary = what == "binarize" and W is not None and all(v in (0, 1) for row in W for v in row)
+    return rc.admissible(dtype, binary=binary,
+                         structural=what in ("threshold_proportional", "threshold_absolute", "binarize"))
+
+
+def _one_call(rec, f, W, den, args, copy, enc_out, variant=rc.PLAIN):
+    """one real call on a fresh array; appends the observations to rec; returns the result.
+    variant: the same values as another argument dtype (only den = 1: integers) / memory layout"""
+    arg = rc.as_variant(np.array(W, dtype=float) / den, variant[0], variant[1])
     before = arg.copy()
     out = f(arg, *args, copy=bool(copy))
     rec["arg_unchanged"].append(int(before.shape == arg.shape and before.tobytes() == arg.tobytes()))
@@ -91,29 +105,34 @@ def exec_job(job):
     import bct
     from bct.utils.miscellaneous_utilities import teachers_round
     fn, W, den, copy = job["fn"], job["W"], job.get("den", 1), job.get("copy", 1)
+    var = (job.get("dtype", "float64"), job.get("layout", "C"))
     rec = _blank(job)
+    rc.as_variant(np.array(W, dtype=float) / den, *var)      # lossy cast = harness fault, not "raised"
+    ends_int = job.get("ptype") == "int"                     # p = 0 / 1, thr typed as Python ints
     try:
         if fn == "teachers_round":
             rec["rounds"] = [int(teachers_round(pk * job["K"] / job["pd"])) for pk in job["pks"]]
         elif fn == "threshold_proportional":
             for pk in job["pks"]:
-                _one_call(rec, bct.threshold_proportional, W, den, (pk / job["pd"],), copy,
-                          lambda x: _strict_units(x, den))
+                p = pk // job["pd"] if (ends_int and pk % job["pd"] == 0) else pk / job["pd"]
+                _one_call(rec, bct.threshold_proportional, W, den, (p,), copy,
+                          lambda x: _strict_units(x, den), var)
         elif fn == "threshold_absolute":
-            _one_call(rec, bct.threshold_absolute, W, den, (job["thr"] / den,), copy,
-                      lambda x: _strict_units(x, den))
+            thr = job["thr"] // den if (ends_int and job["thr"] % den == 0) else job["thr"] / den
+            _one_call(rec, bct.threshold_absolute, W, den, (thr,), copy,
+                      lambda x: _strict_units(x, den), var)
         elif fn == "binarize":
-            _one_call(rec, bct.binarize, W, den, (), copy, encode.mat_int)
+            _one_call(rec, bct.binarize, W, den, (), copy, encode.mat_int, var)
         elif fn == "normalize":
-            _one_call(rec, bct.normalize, W, den, (), copy, encode.mat_q)
+            _one_call(rec, bct.normalize, W, den, (), copy, encode.mat_q, var)
         elif fn == "invert":
-            out = _one_call(rec, bct.invert, W, den, (), copy, encode.mat_q)
+            out = _one_call(rec, bct.invert, W, den, (), copy, encode.mat_q, var)
             rec["out2"] = encode.mat_q(bct.invert(out, copy=True))
         elif fn == "weight_conversion":
             wcm = job["wcm"]
             enc = encode.mat_int if wcm == "binarize" else encode.mat_q
             _one_call(rec, lambda a, copy: bct.weight_conversion(a, wcm, copy=copy), W, den, (),
-                      copy, enc)
+                      copy, enc, var)
             direct = dict(binarize=bct.binarize, normalize=bct.normalize, lengths=bct.invert)[wcm]
             rec["out2"] = enc(direct(np.array(W, dtype=float) / den, copy=True))
         else:
@@ -152,6 +171,63 @@ def rand_matrix(rng, n, sym, lo, hi, density):
     return W
 
 
+def variant_for(rng, job, p_plain):
+    """adds dtype / layout / ptype draws to a job.  Integer dtypes need den = 1 (integer values).
+    normalize / invert (and weight_conversion to them) with copy=False cannot hold their real-
+    valued result in an integer array ("the argument itself holds the result" is unsatisfiable):
+    integer-typed arguments go to them only with copy=True."""
+    fn, wcm = job["fn"], job.get("wcm", "")
+    if fn == "teachers_round":
+        return job
+    W = job["W"]
+    fam = rc.DT_FLOAT
+    if job.get("den", 1) == 1:
+        fam = rc.DT_BIN if all(v in (0, 1) for row in W for v in row) else \
+            (rc.DT_COUNT if all(v >= 0 for row in W for v in row) else rc.DT_SIGNED)
+    dt, lay = rc.draw_variant(rng, fam, p_plain)
+    dt = arg_dtype(fn, wcm, dt, W)
+    if (wcm or fn) in ("normalize", "invert", "lengths") and not job.get("copy", 1):
+        dt = "float64"
+    job.update(dtype=dt, layout=lay, ptype=rng.choice(["float", "float", "int"]))
+    return job
+
+
+def special_matrix(rng):
+    """matrices that enumeration with entries 0..3 and uniform random ones hardly produce: one
+    value everywhere (every weight ties), symmetric with strong self-loops, symmetric except one
+    cell (the asymmetric branch on an almost symmetric input), structured sparse supports with
+    far fewer connections than requested, a single connection, the empty matrix"""
+    kind = rng.choice(["constant", "sym+loops", "almost-sym", "structured", "single", "empty"])
+    n = rng.randint(3, 9)
+    if kind == "constant":
+        v = rng.choice([1, 2, 5])
+        W = [[v if (i != j or rng.random() < 0.3) else 0 for j in range(n)] for i in range(n)]
+    elif kind == "sym+loops":
+        W = rand_matrix(rng, n, True, 0, 3, rng.choice([0.4, 0.9]))
+        for i in range(n):
+            W[i][i] = rng.choice([0, 7, 9])
+    elif kind == "almost-sym":
+        W = rand_matrix(rng, n, True, 1, 4, rng.choice([0.5, 1.0]))
+        i, j = rng.sample(range(n), 2)
+        W[i][j] += rng.choice([1, 2])
+    elif kind == "structured":
+        _, n, edges = rc.structured_support(rng, 4, 9)
+        und = rng.random() < 0.6
+        ws = rng.choice([[1, 2, 3], [2], [1, 5]])
+        A = inputs.mat_from_edges(n, edges if und else rc.orient(rng, edges), und=und,
+                                  w=[rng.choice(ws) for _ in range(2 * len(edges))])
+        W = [[int(v) for v in row] for row in A]
+    elif kind == "single":
+        W = [[0] * n for _ in range(n)]
+        i, j = rng.sample(range(n), 2)
+        W[i][j] = rng.choice([1, 3])
+        if rng.random() < 0.5:
+            W[j][i] = W[i][j]
+    else:
+        W = [[0] * n for _ in range(n)]
+    return kind, W
+
+
 def build_jobs(ctx):
     rng = random.Random(ctx.seed)
     q = ctx.quick
@@ -167,20 +243,30 @@ def build_jobs(ctx):
             mats = inputs.sample(rng, mats, cap)
         for t, M in enumerate(mats):
             W, den = decorate(rng, M, rng.choice([0, 0, 1, 2]))
-            for copy in ([1, 0] if both else [t % 2]):
+            for copy in ([1, 0] if both else [rng.randrange(2)]):
                 jobs.append(dict(fn="threshold_proportional", src="model", W=W, den=den, pd=16,
                                  pks=P16, copy=copy))
-    # ---- random larger: ties, zeros, symmetric or not, finer dyadic p
+    # a sample of them again as another argument dtype (den = 1) / memory layout / p typed as int
+    for j in inputs.sample(rng, [j for j in jobs if j["den"] == 1], 350 if q else 4000):
+        jobs.append(variant_for(rng, dict(j, src="model-variant", copy=rng.randrange(2)), 0.0))
+    # ---- random larger: ties, zeros, symmetric or not, finer dyadic p; special matrices; symmetry,
+    #      diagonal, denominator, copy flag, dtype, layout are independent draws
     for t in range(200 if q else 3000):
-        n = rng.randint(5, 10)
-        W = rand_matrix(rng, n, t % 2 == 0, 0, rng.choice([1, 3, 5]), rng.choice([0.2, 0.5, 0.9, 1.0]))
-        for i in range(n):
-            W[i][i] = rng.choice([0, 0, 2])
+        if rng.random() < 0.3:
+            kind, W = special_matrix(rng)
+            W = [[abs(v) for v in row] for row in W]
+            src = "special-" + kind
+        else:
+            n = rng.randint(5, 10)
+            W = rand_matrix(rng, n, rng.random() < 0.5, 0, rng.choice([1, 3, 5]), rng.choice([0.2, 0.5, 0.9, 1.0]))
+            for i in range(n):
+                W[i][i] = rng.choice([0, 0, 2])
+            src = "random"
         pd = rng.choice([16, 16, 64])
-        pks = P16 if pd == 16 else sorted(rng.sample(range(65), 12))
-        jobs.append(dict(fn="threshold_proportional", src="random", W=W, den=rng.choice([1, 1, 2, 4]),
-                         pd=pd, pks=pks, copy=t % 3 != 0 and 1 or 0))
-    # ---- elementwise utilities on signed matrices (model supports shifted, random)
+        pks = P16 if pd == 16 else sorted(set(rng.sample(range(65), 12)) | {0, 64})
+        jobs.append(variant_for(rng, dict(fn="threshold_proportional", src=src, W=W, den=rng.choice([1, 1, 2, 4]),
+                                          pd=pd, pks=pks, copy=rng.choice([1, 1, 0])), 0.4))
+    # ---- elementwise utilities on signed matrices (model supports shifted, random, special)
     base = inputs.sample(rng, model_matrices(ctx, "dir3"), 250 if q else 1500)
     base += inputs.sample(rng, model_matrices(ctx, "sym4"), 150 if q else 800)
     signed = []
@@ -188,21 +274,38 @@ def build_jobs(ctx):
         n = len(M)
         sh = rng.choice([0, 1, 2])
         W = [[(M[i][j] - sh) if (i != j or rng.random() < 0.5) else 0 for j in range(n)] for i in range(n)]
-        signed.append((W, rng.choice([1, 1, 2, 4])))
+        signed.append((W, rng.choice([1, 1, 2, 4]), 0.75))
     for t in range(120 if q else 1000):
         n = rng.randint(2, 10)
-        signed.append((rand_matrix(rng, n, t % 2 == 0, -6, 6, rng.choice([0.3, 0.8, 1.0])),
-                       rng.choice([1, 2, 4])))
-    for t, (W, den) in enumerate(signed):
-        for copy in ([1, 0] if not q else [t % 2]):
+        signed.append((rand_matrix(rng, n, rng.random() < 0.5, -6, 6, rng.choice([0.3, 0.8, 1.0])),
+                       rng.choice([1, 2, 4]), 0.4))
+    for t in range(60 if q else 600):
+        kind, W = special_matrix(rng)
+        if rng.random() < 0.4:                       # signs
+            W = [[v * rng.choice([1, -1]) for v in row] for row in W]
+        if kind != "empty" or rng.random() < 0.2:    # normalize of the empty matrix is 0/0
+            signed.append((W, rng.choice([1, 1, 2]), 0.4))
+    for t, (W, den, p_plain) in enumerate(signed):
+        for copy in ([1, 0] if not q else [rng.randrange(2)]):
             vals = sorted(set(v for row in W for v in row))
-            thrs = {vals[0] - 1, vals[-1] + 1, rng.choice(vals), rng.choice(vals), 0}
+            # thresholds around and exactly ON the occurring values (an entry equal to thr is kept)
+            thrs = {vals[0] - 1, vals[-1] + 1, vals[0], vals[-1], rng.choice(vals), rng.choice(vals), 0}
+            if q:
+                thrs = set(rng.sample(sorted(thrs), min(len(thrs), 5)))
             for thr in sorted(thrs):
-                jobs.append(dict(fn="threshold_absolute", src="signed", W=W, den=den, thr=thr, copy=copy))
+                jobs.append(variant_for(rng, dict(fn="threshold_absolute", src="signed", W=W, den=den, thr=thr,
+                                                  copy=copy), p_plain))
             for fn in ("binarize", "normalize", "invert"):
-                jobs.append(dict(fn=fn, src="signed", W=W, den=den, copy=copy))
+                jobs.append(variant_for(rng, dict(fn=fn, src="signed", W=W, den=den, copy=copy), p_plain))
             for wcm in ("binarize", "normalize", "lengths"):
-                jobs.append(dict(fn="weight_conversion", src="signed", W=W, den=den, wcm=wcm, copy=copy))
+                jobs.append(variant_for(rng, dict(fn="weight_conversion", src="signed", W=W, den=den, wcm=wcm,
+                                                  copy=copy), p_plain))
+    # ---- 0/1 matrices (also as boolean masks) through binarize / weight_conversion('binarize')
+    for M in inputs.sample(rng, model_matrices(ctx, "dir4"), 60 if q else 600):
+        copy = rng.randrange(2)
+        jobs.append(variant_for(rng, dict(fn="binarize", src="binary", W=M, den=1, copy=copy), 0.0))
+        jobs.append(variant_for(rng, dict(fn="weight_conversion", src="binary", W=M, den=1, wcm="binarize",
+                                          copy=copy), 0.0))
     # ---- the rounding itself on the grid p = k/16, K <= 30 (and a finer grid)
     for K in range(31):
         jobs.append(dict(fn="teachers_round", src="grid", W=[[0]], K=K, pd=16, pks=P16))
@@ -211,7 +314,9 @@ def build_jobs(ctx):
 
 
 def what(job, rec, clause):
-    s = "W=%s den=%s copy=%s" % (rec.get("W"), rec.get("den"), rec.get("copy"))
+    s = "W=%s den=%s copy=%s dtype=%s layout=%s%s" % (
+        rec.get("W"), rec.get("den"), rec.get("copy"), job.get("dtype", "float64"), job.get("layout", "C"),
+        " p/thr typed int where integral" if job.get("ptype") == "int" else "")
     if rec.get("fn") == "threshold_proportional":
         s += " p=k/%d" % rec.get("pd", 0)
     if rec.get("fn") == "threshold_absolute":
@@ -264,23 +369,31 @@ def run(ctx):
     jobs = build_jobs(ctx)
     recs = [_fill(j, r) for j, r in zip(jobs, pool.run_jobs(__name__, jobs))]
     verdicts = ctx.validate(*TRACE, recs, chunk=3000 if ctx.quick else 8000)
-    ctx.judge(jobs, recs, verdicts, what)
+    ctx.judge(jobs, rc.tag_failures(ctx, jobs, recs, verdicts), verdicts, what)
+    ctx.extra["argument_variants"] = rc.variant_counts(jobs)
     bookkeeping(ctx, jobs, recs)
     ctx.exhaustive = True
     ctx.rule = ("threshold_proportional: every matrix with entries 0..3 on 2 and 3 nodes, every "
                 "symmetric one on 3 and 4 nodes, every 0/1 matrix on 4 nodes and symmetric 0/1 on 5 "
                 "(quick tier samples the three largest families) x every p = k/16 x copy flag, "
                 "decorated with diagonals and denominators 1/2/4; seeded random n in 5..10 with "
-                "p = k/16 or k/64. Elementwise utilities and weight_conversion: signed shifts of the "
-                "model matrices and random signed matrices n <= 10 x copy flag x thresholds around "
-                "the occurring values. teachers_round on p = k/16, k/64, K <= 30. "
+                "p = k/16 or k/64 and special matrices (one value everywhere, symmetric with strong "
+                "self-loops, symmetric except one cell, structured sparse supports, a single connection, "
+                "empty). Elementwise utilities and weight_conversion: signed shifts of the "
+                "model matrices, random signed matrices n <= 10 and the special matrices x copy flag x "
+                "thresholds around and exactly on the occurring values; 0/1 matrices also as boolean "
+                "masks through binarize. A sample of the model inputs and most others again as another "
+                "argument dtype (int32/int64/float32/bool where the utility's domain allows; integer-typed "
+                "arguments to normalize/invert only with copy=True), memory layout (Fortran, transposed, "
+                "window, strided) and p/thr typed as int; all choices drawn from the seeded RNG. teachers_round on p = k/16, k/64, K <= 30. "
                 "non-trivial = distinct (W, p) of threshold_proportional whose result keeps some but "
                 "not all present connections")
     for j, r in zip(jobs, recs):
         if j["fn"] == "threshold_proportional" and r["n"] == 3 and r["copy"] == 0:
             ctx.add_sample("model-input", dict(job=j, record=r))
             break
-    ctx.add_sample("signed-input", dict(job=jobs[-70], record=recs[-70]))
+    k = next(i for i, j in enumerate(jobs) if j["src"] == "signed")
+    ctx.add_sample("signed-input", dict(job=jobs[k], record=recs[k]))
     ctx.assumptions += [
         "TLC evaluates the L0 definitions correctly",
         "weights are integers over a denominator 1, 2 or 4 (exact in floating point), |W| <= 100; "
